@@ -5,6 +5,10 @@
     the code as found reads, and whose library it then cannot write, or writes as a text it cannot read. *)
 From Coq Require Import ZArith List String Bool Lia.
 From L21 Require Import Lef.LefDec Lef.LefData Lef.LefLex Lef.LefParse Lef.LefWrite Lef.LefSpec Lef.LefCheck.
+From L21 Require Import Lef.LefLex_proofs Lef.LefRtLex_proofs Lef.LefRtTop_proofs
+                        Lef.LefWFrame_proofs Lef.LefWPin_proofs Lef.LefWVia_proofs Lef.LefWMacro_proofs Lef.LefWLib_proofs
+                        Lef.LefIFrame_proofs Lef.LefIConstr_proofs Lef.LefIPin_proofs Lef.LefIVia_proofs Lef.LefIMacro_proofs
+                        Lef.LefILib_proofs Lef.LefILex_proofs.
 Import ListNotations.
 Local Open Scope Z_scope.
 
@@ -60,3 +64,39 @@ Lemma LefW_version_repeat_refuted :
   /\ write_read_ok cfg_fixed LefW_src_version_ncs = None
   /\ write_read_ok cfg_fixed LefW_src_version_source = None.
 Proof. split; [|split; [|split; [|split]]]; vm_compute; reflexivity. Qed.
+
+(** Part 2: the writer side, all blocks put together (Lef/LefW*_proofs.v): a library with the reader-image facts
+    [lib_wr] (Lef/LefWFrame_proofs.v) is written, and the text is read back as an equal library. *)
+Definition LefW_w_macro : lef_macro -> list stok := w_macro w_pin w_layer.
+Lemma LefW_write_macros : forall ver ms,
+  Forall (fun m => mac_source m <> None -> dec_gt ver V5P4 = false) ms ->
+  exists lines, write_macros cfg_fixed ver ms = Ok lines /\ lays (render_lines lines) (flat_map LefW_w_macro ms).
+Proof.
+  intros ver ms H. destruct (write_macros_ok ver ms H) as [lines E]. exists lines. split; [exact E|].
+  exact (lays_macros w_pin lays_pin w_layer lays_layer lays_symmetries ver ms lines E).
+Qed.
+Theorem LefW_write_read_wr : forall l, lib_wr l ->
+  exists t l', write_lib cfg_fixed l = Ok t /\ parse cfg_fixed t = Ok l' /\ lef_eq l l' = true.
+Proof.
+  apply (write_read_wr w_via lays_via wok_via toksP_via_w w_site lays_site wok_site toksP_site_w
+           w_units lays_units wok_units toksP_units_w LefW_w_macro LefW_write_macros).
+  - exact (wok_macro w_pin wok_pin w_layer wok_layer).
+  - exact (toksP_macro_w w_pin toksP_pin_w w_pin_head w_layer toksP_layer_w).
+Qed.
+
+(** Part 3: the reader-image side, all blocks put together (Lef/LefI*_proofs.v): every library the reader returns
+    on a well-formed UTF-8 text has the facts [lib_wr]. *)
+Theorem LefW_parse_image : forall src l, U8 src -> parse cfg_fixed src = Ok l -> lib_wr l.
+Proof.
+  intros src l U H.
+  apply (parse_image src (ILex_U8_sb src U)
+           (parse_macro_ispecv src (parse_pin_ispec src) (parse_property_ispec src) (ident_stmt_ispec src)
+              (@enum_stmt_ispec src) (parse_size_ispec src) (parse_symmetries_ispec src))
+           (parse_via_ispec src) (parse_site_def_ispec src) (parse_units_ispec src)
+           (fun tis e => lex_image src tis e U) l H).
+Qed.
+
+(** C05 *)
+Theorem LefW_write_read : forall src l, utf8_valid src -> parse cfg_fixed src = Ok l ->
+  exists t l', write_lib cfg_fixed l = Ok t /\ parse cfg_fixed t = Ok l' /\ lef_eq l l' = true.
+Proof. intros src l V H. apply LefW_write_read_wr. exact (LefW_parse_image src l (valid_U8 src V) H). Qed.
